@@ -14,8 +14,9 @@ PROP = dict(
                "(grid, PVT / saturation / thermal / polymer / solution tables, field-property operations, aquifers, wells, segments, "
                "groups, VFP table, network, ~45 schedule keywords) whose dimensions are stated by the harness from the ECLIPSE manual is "
                "written in the four systems; Deck SI values, the complete serialised EclipseState (all tables) and every "
-               "ScheduleState, field properties, grid geometry and the evaluated well/group limits must agree (1e-12; computed "
-               "geometry 1e-9). Exploration: the finite tables are enumerated, values, texts and models are sampled.",
+               "ScheduleState, field properties, grid geometry and the evaluated well/group limits must agree (1e-12; 1e-9 for what the "
+               "library computes by differences and look-ups: cell geometry, pore volumes, connection factors and equivalent radii, "
+               "aquifer constants). Exploration: the finite tables are enumerated, values, texts and models are sampled.",
     level_note="Trusts the ~150-line reference table ref:: in harness/c02_units.cpp (reviewed line by line against the unit "
                "definitions) and, for the model stage, the harness's statement of the physical dimension of ~300 items of ~110 "
                "keywords. The BTU is accepted in either definition to 7 digits (tables); the re-expression stages then write FIELD "
@@ -32,20 +33,20 @@ PROP = dict(
          "items; composite: >= 2 atoms); kw - at least one non-zero value with a non-identity dimension was compared against the "
          "reference; model - accepted in METRIC and more than 50 physical values written. Distinct = hash of the case content.",
     stages=[
-        dict(id="tables", harness="c02_units", flavour="plain", cases={Q: 30000, T: 1000000}, timeout={Q: 600, T: 3600}, args=["part=tables"]),
-        dict(id="kw", harness="c02_units", flavour="plain", cases={Q: 60000, T: 3000000}, timeout={Q: 600, T: 5400}, args=["part=kw"]),
-        dict(id="model", harness="c02_units", flavour="plain", cases={Q: 2400, T: 100000}, timeout={Q: 900, T: 7200}, args=["part=model"]),
+        dict(id="tables", harness="c02_units", flavour="plain", cases={Q: 30000, T: 2000000}, timeout={Q: 600, T: 3600}, args=["part=tables"]),
+        dict(id="kw", harness="c02_units", flavour="plain", cases={Q: 60000, T: 6000000}, timeout={Q: 600, T: 5400}, args=["part=kw"]),
+        dict(id="model", harness="c02_units", flavour="plain", cases={Q: 2400, T: 200000}, timeout={Q: 900, T: 7200}, args=["part=model"]),
     ],
-    min_nontrivial={Q: 40000, T: 1500000},
+    min_nontrivial={Q: 40000, T: 3000000},
     coverage_floor=[("tables", "enumeration_complete", {Q: 1, T: 1}),
                     ("tables", "comparisons_reference", {Q: 184, T: 184}),
                     ("tables", "comparisons_composite", {Q: 600, T: 600}),
                     ("tables", "json_files_compared", {Q: 1100, T: 1100}),
-                    ("tables", "comparisons_output", {Q: 100000, T: 3000000}),
-                    ("kw", "item_checks", {Q: 30000, T: 500000}),
-                    ("kw", "si_values_compared", {Q: 300000, T: 15000000}),
-                    ("model", "models_compared", {Q: 200, T: 3000}),
-                    ("model", "si_values_compared", {Q: 10000000, T: 400000000})],
+                    ("tables", "comparisons_output", {Q: 100000, T: 10000000}),
+                    ("kw", "item_checks", {Q: 30000, T: 5000000}),
+                    ("kw", "si_values_compared", {Q: 300000, T: 30000000}),
+                    ("model", "models_compared", {Q: 2000, T: 150000}),
+                    ("model", "si_values_compared", {Q: 10000000, T: 1000000000})],
     exhaustive_subspaces=[
         "tables: {METRIC, FIELD, LAB, PVT-M} x all 46 UnitSystem::measure values (184 cases: three tables, named-dimension "
         "table, reference factor and offset, unit name, round trip of 57 values each)",
